@@ -141,10 +141,10 @@ claim('C19', 'proof',
       'Correspondence: get_feature_names_out verbatim for both formats x symbols_only x call flags x generated or '
       'DataFrame names through random trees of all kinds. Oracle: a parser for the plaintext grammar evaluates every '
       'name on the data and compares with the column; DataFrame names verbatim / mismatching names rejected.',
-      'Lean kernel + standard axioms; "each name denotes its column" is proved per kind (shared generic function; delay '
-      'block semantics) and checked end-to-end by the oracle on pipelines whose products parse unambiguously; a single '
-      'compositional denotation theorem for whole pipelines is not proved; wrapped-scaler and RBF / kernel names are '
-      'compared verbatim only.',
+      'Lean kernel + standard axioms; "each name denotes its column" is proved for whole pipelines (C19_denotation: one row of '
+      'symbolic terms per tree whose rendering is the names and whose evaluation is the lifted values) and checked end-to-end '
+      'by two name-evaluating oracles (a grammar parser; a verbatim-atom reader for names containing blanks / operators, '
+      'stage by stage); wrapped-scaler and RBF / kernel names are compared verbatim only.',
       'Lean 4 proof (names as a second interpretation of the generic model) + verbatim correspondence + name-evaluating oracle',
       'DESIGN.md section 5 C19')
 
@@ -152,13 +152,17 @@ claim('C15', 'other',
       'The Lean history machine (theorems C15_*) states which histories must be indistinguishable: after ANY history '
       'without a stop request a fit leaves the state of a fresh estimator with the current parameters; only set_params '
       'changes parameters; read-only calls are pure, hence every interleaving of reads returns the sequential answers; '
-      'set/get round trips on the flattened name__sub map. The check executes random real histories on every '
+      'set/get round trips on the flattened name__sub map; the fitted state is a snapshot (parameter edits, clones, reads, '
+      'stop requests after a fit change no read-only answer: C15_fitted_snapshot / _reads_after_edits); several instances '
+      'and caller-owned arrays overwritten in place: instances independent, fits and reads by VALUE of the current contents '
+      '(C15_fit_by_value, C15_read_by_value). The check executes random real histories on every '
       'estimator class of the package and verifies each of these equalities by deep by-value digests (fresh clone + '
       'fit vs used instance + fit; parameters and input arrays around every call; reads from 3 threads).',
       'The theorems are about the machine, which is simple by design; the assurance is the refinement check on real '
       'histories (sampled). Tolerance instead of bit-equality for KMeans / GaussianMixture / SDP-solver backed '
       'estimators. CPython cannot enumerate interleavings: the theorem covers all of them given that reads do not '
-      'write, and the digest-around-every-read check ties that premise to the code. Known finding F-stop; fixed F-qmc, F-cache.',
+      'write, and the digest-around-every-read check ties that premise to the code. Process state outside the estimator '
+      '(warnings filters, numpy error state / global RNG) is varied by the check, not modelled. Known finding F-stop; fixed F-qmc, F-cache.',
       'Lean 4 theorems on a history machine + refinement check of real API histories (digests)',
       'DESIGN.md section 5 C15')
 
